@@ -646,7 +646,7 @@ def gen_items(ctx):
     return items
 
 
-PER_CFG = 3  # witnesses reported per (monitor, parameter setting); further failing seeds are counted in a note
+PER_CFG = 1  # witnesses reported per (monitor, parameter setting); further failing seeds are counted in a note
 
 
 def t2(ctx):
